@@ -23,12 +23,15 @@ resolution (Spec/Scope.lean).
                                    ES5 scoping on the program (hypothesis of `binding_preserved_partial`);  reply OK T|F
   excluded <og> <tree>             the program is in one of the three recorded deviation classes (Proofs/ObfExcluded.lean);
                                    reply OK <T|F> <kfA T|F> <kfB T|F> <kfC T|F> <kfE T|F>
+  facts <og> <sf> <kw> <tree>      the walk facts of a SIMPLE program (Proofs/ObfFacts.lean `factsOf`; false for programs with a catch
+                                   clause, a label or a named function expression);  reply OK T|F
   errors: ERR <PythonExceptionClass|unmodelled|fuel> <detail>,  ERR request …
 
 Paths are written root first as `attr.index/attr.index/…` (the empty path is the empty string).
 -/
 import CalmVerif.Proofs.ObfBindCond
 import CalmVerif.Proofs.ObfExcluded
+import CalmVerif.Proofs.ObfFacts
 import CalmVerif.Util.Loop
 open CalmVerif CalmVerif.Unparse CalmVerif.Proto CalmVerif.Obf
 
@@ -161,6 +164,14 @@ def handle (line : String) : String :=
     | none => "ERR request bad flags"
     | some fl => withTree rest fun tree =>
       match alignedOf fl tree with
+      | some true => "OK T"
+      | some false => "OK F"
+      | none => "ERR prewalk"
+  | "facts" :: og :: sf :: kw :: rest =>
+    match parseFlags og sf kw with
+    | none => "ERR request bad flags"
+    | some fl => withTree rest fun tree =>
+      match factsOf fl tree with
       | some true => "OK T"
       | some false => "OK F"
       | none => "ERR prewalk"
